@@ -193,6 +193,14 @@ pub fn field_mutations(f: &Frame) -> Vec<Mutation> {
                         set("T3", "datetime=last-day-other-weekday", v, &mut out);
                     }
                 }
+                // the ends of the calendar the field can express: the last and the first year, December / January, the last
+                // day and the day after it, every weekday (date arithmetic that carries into the next year or month)
+                for (yy, mm, dd) in [(255u64, 11u64, 30u64), (255, 11, 31), (0, 0, 0), (0, 1, 28), (0, 1, 29), (255, 1, 28)] {
+                    for wd in 0..7u64 {
+                        let v = (cur & 0x0000_07FF) | (yy << 24) | (mm << 20) | (dd << 14) | (wd << 11);
+                        set("T3", "datetime=calendar-end", v, &mut out);
+                    }
+                }
             }
             FKind::PackedGuid => {
                 let mut m = Mutation::base(f, "T8", format!("field#{} {} packed-guid mask 0xff", fi, fld.path));
